@@ -34,6 +34,7 @@ A_EXCLUDE = {
 def run(F, R, ctx):
     _run(F, R, ctx)
     reentrant_drop_rule(F, R)
+    depth_counter_rule(F, R)
 
 
 def _run(F, R, ctx):
@@ -262,3 +263,51 @@ def reentrant_drop_rule(F, R):
                "say, an undelivered channel message overflows the native stack when its owner is discarded" % owner,
                fn.loc(), sample=True)
     R.floor("C18.f", "drop handlers borrowing the shared drop buffer", n, 5)
+
+
+def depth_counter_rule(F, R):
+    R.rule("C18.g", "a recursion-depth counter counts every level: in each function that bounds its own recursion with a counter "
+                    "field (a field that it increments, compares with a constant and decrements: CycleDetector.depth in the "
+                    "printer), no call back into the function is reachable from a decrement of the counter without passing an "
+                    "increment again — the counter is given back only on the way out. A level that is entered with the "
+                    "counter lowered does not count against the limit, so native recursion is no longer bounded by it "
+                    "(a long chain of that kind of value overflows the host stack)")
+    n = 0
+    for name, fn in sorted(F.fns.items()):
+        if not name.startswith("steel::rvals::"):
+            continue
+        selfcalls = [i for i, cb in fn.calls() if cb["callee"] == name]
+        if not selfcalls:
+            continue
+        # counter fields: read in a block with an Add/Sub on usize of that field, written in the successor
+        incs, decs = {}, {}
+        for i, b in enumerate(fn.blocks):
+            if b["c"]:
+                continue
+            for e in b["e"]:
+                if e[0] == "binop" and e[1] in ("AddWithOverflow", "Add", "AddUnchecked", "SubWithOverflow", "Sub", "SubUnchecked") and len(e) > 6:
+                    m_ = re.search(r"\.(\w+)$", str(e[5]))
+                    if not m_ or e[6] != "const:1":
+                        continue
+                    fld = m_.group(1)
+                    # the write of the same field follows
+                    nxt = [i] + list(fn.succ(i))
+                    if any(ev[0] == "fld" and ev[2] == fld and ev[3][0] == "w" for x in nxt for ev in fn.blocks[x]["e"]):
+                        (incs if e[1].startswith("Add") else decs).setdefault(fld, set()).add(i)
+        for fld in sorted(set(incs) & set(decs)):
+            cmp_ = any(e[0] == "binop" and e[1] in ("Gt", "Ge", "Lt", "Le") for b in fn.blocks for e in b["e"])
+            if not cmp_:
+                continue
+            n += 1
+            bad = []
+            for d in sorted(decs[fld]):
+                reach = fn.reachable_from(fn.succ(d), avoid=incs[fld])
+                hit = [c for c in selfcalls if c in reach]
+                if hit:
+                    bad.append((fn.blocks[d].get("line"), fn.blocks[hit[0]].get("line")))
+            R.inst("C18.g", "%s / counter `%s` is lowered only on the way out" % (fn.short(), fld), not bad,
+                   "%s lowers its depth counter `%s` (line %s) and then calls itself (line %s) before raising it again: that level "
+                   "of the recursion is not counted, so the depth limit no longer bounds native recursion along that edge"
+                   % (fn.short(), fld, bad[0][0] if bad else "", bad[0][1] if bad else ""), fn.loc(bad[0][0] if bad else None),
+                   sample={"increments": len(incs[fld]), "decrements": len(decs[fld]), "self_calls": len(selfcalls)})
+    R.floor("C18.g", "self-recursive functions with a depth counter", n, 1)
